@@ -1,31 +1,134 @@
 """Proof obligations per property: {module: [fully qualified theorem names]}.  Each
 module is built and audited in its own environment (existence, theorem-hood, axioms).
-OPEN lists the stated goals not yet proved; ASSUME the assumptions of the claim."""
+OPEN lists the stated goals not yet proved; ASSUME the assumptions of the claim.
+(generated with bin/list_theorems.py, then edited)"""
 
 THEOREMS = {
+    "C01": {
+        "JP.Props.C01": [
+            "JP.C01.applyOp_refines", "JP.C01.applyOps_refines_inv", "JP.C01.applyOps_refines", "JP.C01.applyOps_refines_acc",
+            "JP.C01.decodeRoot_spec", "JP.C01.apply_refines", "JP.C01.move_eq_remove_add", "JP.C01.test_absent_is_null",
+            "JP.C01.write_then_read", "JP.C01.null_roundtrip", "JP.C01.applyOp_keeps", "JP.C01.copy_isolated",
+            "JP.C01.engine_null_roundtrip", "JP.C01.engine_test_absent_is_null", "JP.C01.engine_copy_isolated",
+        ],
+    },
     "C02": {
-        "JP.Props.C02": ["JP.C02.mergeNC_refines_eq", "JP.C02.mergeNC_refines", "JP.C02.mergeDocsC_refines", "JP.C02.pruneC_spec",
-                         "JP.C02.doMergePatch_refines", "JP.C02.mergePatch_value", "JP.C02.doMergePatch_errors"],
+        "JP.Props.C02": [
+            "JP.C02.mergeNC_refines_eq", "JP.C02.mergeNC_refines", "JP.C02.mergeDocsC_refines", "JP.C02.pruneC_spec",
+            "JP.C02.doMergePatch_refines", "JP.C02.mergePatch_value", "JP.C02.doMergePatch_errors",
+        ],
     },
     "C03": {
-        "JP.Props.C03spec": ["JP.C03.roundtrip", "JP.C03.roundtrip_strong", "JP.C03.empty_iff", "JP.C03.deletions_null",
-                             "JP.C03.additions_whole", "JP.C03.minimal", "JP.C03.minimal_rec", "JP.C03.literals_from_target",
-                             "JP.C03.diff_nodupKeys", "JP.C03.diff_noDup"],
+        "JP.Props.C03spec": [
+            "JP.C03.roundtrip_strong", "JP.C03.roundtrip", "JP.C03.empty_iff", "JP.C03.deletions_null",
+            "JP.C03.additions_whole", "JP.C03.minimal", "JP.C03.minimal_rec", "JP.C03.literals_from_target",
+            "JP.C03.diff_nodupKeys", "JP.C03.diff_noDup",
+        ],
+    },
+    "C04": {
+        "JP.Props.C04": [
+            "JP.C04.decodePatch_no_panic", "JP.C04.mergePatch_no_panic", "JP.C04.mergeMergePatches_no_panic", "JP.C04.createMergePatch_no_panic",
+            "JP.C04.equal_total", "JP.C04.apply_no_panic_noensure", "JP.C04.apply_no_panic", "JP.C04.applyOps_no_panic",
+        ],
+    },
+    "C05": {
+        "JP.Props.C05spec": [
+            "JP.C05.empty_patch_identity", "JP.C05.test_identity", "JP.C05.keys_set_present", "JP.C05.keys_set_absent",
+            "JP.C05.keys_erase", "JP.C05.lookup_set_self", "JP.C05.lookup_set_other", "JP.C05.lookup_erase_other",
+            "JP.C05.addIn_arr_elements", "JP.C05.removeIn_arr_elements", "JP.C05.replaceIn_arr_elements", "JP.C05.frame_object_paths",
+            "JP.C05.frame_patch", "JP.C05.frame_diverge_at_object", "JP.C05.literals_applyOp", "JP.C05.literals_apply",
+            "JP.C05.surviving_keys_op", "JP.C05.surviving_keys_patch", "JP.C05.surviving_keys_apply", "JP.C05.surviving_keys_sublist",
+            "JP.C05.keys_prefix_of_no_removal", "JP.C05.merge_keys_exact", "JP.C05.merge_keys_old_first", "JP.C05.merge_obj_obj",
+            "JP.C05.merge_member", "JP.C05.merge_literals",
+        ],
     },
     "C06": {
-        "JP.Props.C06spec": ["JP.C06.eqv_refl", "JP.C06.eqv_symm", "JP.C06.eqv_trans", "JP.C06.null_only_null", "JP.C06.null_only_null'",
-                             "JP.C06.beq_imp_eq", "JP.C06.beq_imp_eqv"],
-        "JP.Props.C06": ["JP.C06.eqCC_iff", "JP.C06.eqNC_iff'", "JP.C06.eqNC_iff", "JP.C06.equal_iff", "JP.C06.malformed_false",
-                         "JP.C06.equal_spec", "JP.C06.eqCC_symm", "JP.C06.eqCC_refl", "JP.C06.eqCC_trans", "JP.C06.equal_symm'",
-                         "JP.C06.equal_trans'", "JP.C06.equal_refl"],
+        "JP.Props.C06spec": [
+            "JP.C06.eqv_refl", "JP.C06.eqv_symm", "JP.C06.eqv_trans", "JP.C06.null_only_null",
+            "JP.C06.null_only_null'", "JP.C06.beq_imp_eq", "JP.C06.beq_imp_eqv",
+        ],
+        "JP.Props.C06": [
+            "JP.C06.eqCC_iff", "JP.C06.eqNC_iff'", "JP.C06.eqNC_iff", "JP.C06.equal_iff",
+            "JP.C06.malformed_false", "JP.C06.equal_spec", "JP.C06.eqCC_symm", "JP.C06.eqCC_refl",
+            "JP.C06.eqCC_trans", "JP.C06.equal_symm'", "JP.C06.equal_trans'", "JP.C06.equal_refl",
+        ],
     },
     "C07": {
-        "JP.Props.C07spec": ["JP.C07.compose_law", "JP.C07.compose_law_strong", "JP.C07.compose_law_nonobject_eq", "JP.C07.nonobject_p2",
-                             "JP.C07.compose_lookup", "JP.C07.later_overrides", "JP.C07.deletions_survive", "JP.C07.earlier_survives",
-                             "JP.C07.nested_composed", "JP.C07.compose_nodupKeys", "JP.C07.compose_noDup"],
-        "JP.Props.C07impl": ["JP.C07.mergeNC_compose", "JP.C07.mergeNC_compose_eqv", "JP.C07.mergeDocsC_compose",
-                             "JP.C07.doMergePatch_true_refines"],
+        "JP.Props.C07spec": [
+            "JP.C07.compose_law_strong", "JP.C07.compose_law", "JP.C07.compose_law_nonobject_eq", "JP.C07.nonobject_p2",
+            "JP.C07.compose_lookup", "JP.C07.later_overrides", "JP.C07.deletions_survive", "JP.C07.earlier_survives",
+            "JP.C07.nested_composed", "JP.C07.compose_nodupKeys", "JP.C07.compose_noDup",
+        ],
+        "JP.Props.C07impl": [
+            "JP.C07.mergeNC_compose", "JP.C07.mergeNC_compose_eqv", "JP.C07.mergeDocsC_compose", "JP.C07.doMergePatch_true_refines",
+        ],
+    },
+    "C08": {
+        "JP.Props.C08": [
+            "JP.C08.suffix_irrelevant", "JP.C08.suffix_irrelevant_bytes", "JP.C08.prefix_ok_of_ok", "JP.C08.err_of_prefix_err",
+            "JP.C08.testFailed_only_from_test", "JP.C08.copySize_only_from_copy", "JP.C08.testFailed_in_patch", "JP.C08.copySize_in_patch",
+        ],
+    },
+    "C09": {
+        "JP.Props.C09": [
+            "JP.C09.scan_reset", "JP.C09.history_independent_scanner", "JP.C09.history_independent_marshal",
+            "JP.C09.history_independent_unmarshal", "JP.C09.history_independent_unmarshal_library",
+            "JP.C09.stale_keys_returned", "JP.C09.fresh_keys_on_object", "JP.C09.stale_keys_erased",
+            "JP.C09.stale_keys_never_read", "JP.C09.stale_keys_unobservable", "JP.C09.history_independent",
+            "JP.C09.history_independent_apply", "JP.C09.history_independent_decodePatch", "JP.C09.history_independent_equal",
+            "JP.C09.history_independent_mergePatch", "JP.C09.history_independent_mergeMergePatches",
+            "JP.C09.history_independent_createMergePatch", "JP.C09.pool_invariant", "JP.C09.call_sequence",
+            "JP.C09.call_sequence_oracle",
+        ],
+    },
+    "C10": {
+        "JP.Props.C10": [
+            "JP.C10.schedule_independent", "JP.C10.schedule_preserves_invariant", "JP.C10.footprints_disjoint",
+            "JP.C10.wellOwned_spec", "JP.C10.never_writes_shared", "JP.C10.no_conflicting_access",
+        ],
+    },
+    "C11": {
+        "JP.Props.C11": [
+            "JP.C11.lookupLastC_valueOf", "JP.C11.decodeOps_iff", "JP.C11.decodePatch_iff", "JP.C11.decodePatch_total",
+            "JP.C11.decodePatch_err_or_ok", "JP.C11.accessors", "JP.C11.accessors_text",
+        ],
+    },
+    "C12": {
+        "JP.Props.C12": [
+            "JP.C12.zero_disables", "JP.C12.others_dont_count", "JP.C12.copy_adds_size", "JP.C12.copy_limit_exact",
+            "JP.C12.copy_within_limit", "JP.C12.copy_ok_within", "JP.C12.running_total", "JP.C12.running_total_within",
+            "JP.C12.patch_limit_exact",
+        ],
+    },
+    "C13": {
+        "JP.Props.C13": [
+            "JP.C13.rewrite", "JP.C13.rewrite_nolimit", "JP.C13.rewrite_apply", "JP.C13.others_unchanged",
+            "JP.C13.unskipped_succeeds", "JP.C13.skipped_is_identity", "JP.C13.skipped_only_absent", "JP.C13.specSkipped_head",
+        ],
+    },
+    "C15": {
+        "JP.Props.C15text": [
+            "JP.C15.unquote_escBody", "JP.C15.escBody_idem", "JP.C15.escBody_clean", "JP.C15.escBody_valid",
+            "JP.C15.escBody_utf8", "JP.C15.valueOf_escape", "JP.C15.wfc_escape", "JP.C15.print_escape_clean",
+            "JP.C15.parse_print_escape", "JP.C15.parseValueOf_print_escape", "JP.C15.print_escape_utf8",
+        ],
+    },
+    "C17": {
+        "JP.Props.C17": [
+            "JP.C17.encodeRune_decodeRune", "JP.C17.decodeRune_reencode", "JP.C17.unquote_quoteBody", "JP.C17.quoteBody_valid",
+            "JP.C17.quoteBody_clean", "JP.C17.unquote_quoteBody_switch", "JP.C17.quoteBody_utf8", "JP.C17.unquoteBody_valid",
+            "JP.C17.parse_print", "JP.C17.roundtrip", "JP.C17.marshal_wfc", "JP.C17.escape_switch_only_spelling",
+            "JP.C17.parse_print_marshal", "JP.C17.print_marshal_utf8",
+        ],
+    },
+    "C20": {
+        "JP.Props.C20": [
+            "JP.C20.run_ok_iff", "JP.C20.run_status", "JP.C20.run_fail_clean", "JP.C20.run_missing",
+            "JP.C20.run_order_opt", "JP.C20.run_order", "JP.C20.run_order_fail", "JP.C20.run_no_files",
+            "JP.C20.run_one_file",
+        ],
     },
 }
+
 OPEN = {}
 ASSUME = {}
